@@ -275,7 +275,8 @@ impl<'a> World<'a> {
                         self.expect_fail_make(&op, ArgClass::NonUtf8, r);
                     }
                     2 => {
-                        let c = cstr("noSuchUnit");
+                        // no unit has any of these identifiers (incl. the empty string)
+                        let c = cstr(*self.rng.pick::<&str>(&["noSuchUnit", "", " ", "kW ", " kW", "\u{e9}", "1", "-", "KW"]));
                         let r = haystack_value_make_number_with_unit(x, c.as_ptr());
                         self.expect_fail_make(&op, ArgClass::InvalidText, r);
                     }
@@ -1198,7 +1199,7 @@ impl<'a> World<'a> {
                 let z = zones[self.rng.below(zones.len())];
                 let zname = if self.rng.coin() { z.name().to_string() } else { crate::bridge::short_zone_name(z.name()).to_string() };
                 let cz = cstr(&zname);
-                let bad = cstr("Nowhere/Land");
+                let bad = cstr(*self.rng.pick::<&str>(&["Nowhere/Land", "", " ", "/", "New_York ", "utc"]));
                 let (zp, zclass): (*const c_char, ArgClass) = match tzmode {
                     1 => (null(), ArgClass::Null),
                     2 => (bad.as_ptr(), ArgClass::InvalidText),
